@@ -1,5 +1,7 @@
-"""C15 - see properties.jsonl; META is filled in below."""
-META = {"level": "proof", "trusted_base": [], "assumptions": [], "explanation": ""}
+"""C15 - claim and bounded driver; statement in properties.jsonl, design in DESIGN.md section 7."""
+from props.meta import META as _M
+
+META = _M["C15"]
 
 try:
     from props.C15_rac import rac, replay   # bounded run-time contract driver (stand-in + replay harness)
